@@ -699,6 +699,23 @@ pub fn c15(ctx: &mut Ctx) {
             check_passthrough(ctx, done);
         }
     }
+    // folded requests around the URI length limit: either the returned URI carries every authenticated
+    // parameter, or (beyond what `http::Uri` can hold) the request is refused — never accepted with a URI
+    // that lost the body parameters
+    for &sz in &[60_000usize, 65_400, 65_480, 65_520, 65_600, 70_000] {
+        for shape in 0..2 {
+            let mut l = simple_logical(Carrier::Header, 1_440_938_160_000_000_000);
+            l.method = "POST".into();
+            l.fold = true;
+            l.content_type = Some("application/x-www-form-urlencoded".into());
+            l.form = Some(if shape == 0 { vec![(b"k".to_vec(), vec![b'v'; sz])] } else { (0..sz / 8).map(|i| (format!("p{:05}", i % 1000).into_bytes(), b"1".to_vec())).collect() });
+            let now = now_for(&l, 0);
+            let s = sign_and_spell(&l, &mut rng, &Spelling::plain(), now);
+            let total = s.case.uri.len() + 1 + s.case.body.len();
+            let expect = if total > 65_534 + 40 { Expect::Refuse(Some("MalformedQueryString")) } else if total < 65_534 - 40 { Expect::Accept } else { Expect::Any };
+            jobs.push(job(s.case, expect, "c15-folded-size", "C15: a folded request near the URI length limit must be returned with all authenticated parameters or refused"));
+        }
+    }
     let done = run_jobs(ctx, "VALIDATE", jobs);
     check_passthrough(ctx, done);
 }
@@ -811,6 +828,26 @@ pub fn c08(ctx: &mut Ctx) {
         }
     }
     run_jobs(ctx, "VALIDATE", std::mem::take(&mut jobs));
+    // dates that match the pattern but not the calendar, through the whole entry point, both carriers
+    for (i, date) in ["20150230T123600Z", "20150431T123600Z", "19000229T123600Z", "2015-02-29T12:36:00Z", "20150830T123660Z", "20150830T240000Z", "20151301T000000Z", "20150800T000000Z", "00000101T000000Z", "99991231T235959.999999999-2359"].iter().enumerate() {
+        for carrier in [Carrier::Header, Carrier::Query] {
+            let l = simple_logical(carrier, 1_440_938_160_000_000_000);
+            let now = now_for(&l, 0);
+            let s = sign_and_spell(&l, &mut rng, &Spelling::plain(), now);
+            let mut c = s.case.clone();
+            for (n, v) in c.headers.iter_mut() {
+                if n.eq_ignore_ascii_case("x-amz-date") {
+                    *v = date.as_bytes().to_vec();
+                }
+            }
+            c.uri = c.uri.replace("X-Amz-Date=20150830T123600Z", &format!("X-Amz-Date={}", String::from_utf8(rs::encode(date.as_bytes())).unwrap()));
+            if c.uri == s.case.uri && c.headers == s.case.headers {
+                continue;
+            }
+            jobs.push(job(c, Expect::Any, &format!("c08-date-{}", i), clause));
+        }
+    }
+    run_jobs(ctx, "VALIDATE", std::mem::take(&mut jobs));
     // (c) malformed requests: byte-level mutations of valid ones under every option/requirement combination
     for i in 0..ctx.n(1500, 30000) {
         let l = random_logical(&mut rng);
@@ -901,6 +938,19 @@ pub fn c08(ctx: &mut Ctx) {
             4 => tris.push(mk("ISO", format!("ISO {}", hx(b)), imp::iso(&s))),
             _ => tris.push(mk("HVAL", format!("HVAL {}", hx(b)), imp::hval(b))),
         }
+    }
+    // every month x day x {leap, non-leap, century} year and out-of-range clock fields: direct parser calls
+    for y in [2015i64, 2016, 1900, 2000] {
+        for mo in 0..=13 {
+            for d in 0..=32 {
+                let t = crate::props_direct::render_iso(y, mo, d, 12, 36, 0, if (mo + d) % 2 == 0 { 0 } else { 15 }, "", "Z");
+                tris.push(Tri { op: "ISO", line: format!("ISO {}", hx(t.as_bytes())), imp: Some(imp::iso(&t)), spec: None, class: "c08-direct".into(), clause: "a public operation panicked", show: t.clone() });
+            }
+        }
+    }
+    for (h, mi, sec) in [(24, 0, 0), (23, 60, 0), (23, 59, 60), (23, 59, 61), (0, 0, 62), (99, 99, 99)] {
+        let t = crate::props_direct::render_iso(2015, 8, 30, h, mi, sec, 0, "", "+2359");
+        tris.push(Tri { op: "ISO", line: format!("ISO {}", hx(t.as_bytes())), imp: Some(imp::iso(&t)), spec: None, class: "c08-direct".into(), clause: "a public operation panicked", show: t.clone() });
     }
     // panics in direct operations are oracle failures too
     for t in &tris {
